@@ -474,3 +474,54 @@ Example C16_nonvacuous_archive_bytes :
    read_file (fst r) (out_ ++ [s2b "a"; s2b "y"]) = Some [] /\
    read_file (fst r) [s2b "evil"] = Some (s2b "keep")).
 Proof. vm_compute. repeat split. Qed.
+
+(* ====================================================================================== *)
+(* Tie A, level 1 (work package linearT): the extraction path of mlar/src/main.rs — get_extracted_path (whole
+   function), create_file (D23 test before File::create), FileWriter::write, match_file_name and the body of
+   `extract` (both forms) — translated statement by statement on every run (tools/src2v3_cli.py -> gen/Src3x.v)
+   and proved equal to / simulated by the model (theories/SrcTie3Cli.v); the confinement theorem holds of the
+   TRANSLATED `extract`.  Trusted primitive table (std::fs / LruCache / io::copy -> Path.v / Pool.v operations):
+   head of tools/src2v3_cli.py. *)
+From MLA Require SrcTie3Cli.
+From MLAGen Require Src3d Src3l Src3x.
+
+Theorem C16_tie_get_extracted_path_src : ltac:(let t := type of SrcTie3Cli.get_extracted_path_src in exact t).
+Proof. exact SrcTie3Cli.get_extracted_path_src. Qed.
+Theorem C16_tie_create_file_sim : ltac:(let t := type of SrcTie3Cli.create_file_sim in exact t).
+Proof. exact SrcTie3Cli.create_file_sim. Qed.
+Theorem C16_tie_file_writer_write_src : ltac:(let t := type of SrcTie3Cli.file_writer_write_src in exact t).
+Proof. exact SrcTie3Cli.file_writer_write_src. Qed.
+Theorem C16_tie_pool_capacity_src3x : ltac:(let t := type of SrcTie3Cli.pool_capacity_src3x in exact t).
+Proof. exact SrcTie3Cli.pool_capacity_src3x. Qed.
+Theorem C16_tie_run_writers_sim : ltac:(let t := type of SrcTie3Cli.run_writers_sim in exact t).
+Proof. exact SrcTie3Cli.run_writers_sim. Qed.
+Theorem C16_tie_prepass_sim : ltac:(let t := type of SrcTie3Cli.prepass_sim in exact t).
+Proof. exact SrcTie3Cli.prepass_sim. Qed.
+Theorem C16_tie_linear_extract_d_sim : ltac:(let t := type of SrcTie3Cli.linear_extract_d_sim in exact t).
+Proof. exact SrcTie3Cli.linear_extract_d_sim. Qed.
+Theorem C16_tie_extract_linear_sim : ltac:(let t := type of SrcTie3Cli.extract_linear_sim in exact t).
+Proof. exact SrcTie3Cli.extract_linear_sim. Qed.
+Theorem C16_tie_extract_selected_sim : ltac:(let t := type of SrcTie3Cli.extract_selected_sim in exact t).
+Proof. exact SrcTie3Cli.extract_selected_sim. Qed.
+Theorem C16_tie_extract_confined_src : ltac:(let t := type of SrcTie3Cli.C16_extract_confined_src in exact t).
+Proof. exact SrcTie3Cli.C16_extract_confined_src. Qed.
+
+Print Assumptions C16_tie_get_extracted_path_src.
+Print Assumptions C16_tie_create_file_sim.
+Print Assumptions C16_tie_file_writer_write_src.
+Print Assumptions C16_tie_pool_capacity_src3x.
+Print Assumptions C16_tie_run_writers_sim.
+Print Assumptions C16_tie_prepass_sim.
+Print Assumptions C16_tie_linear_extract_d_sim.
+Print Assumptions C16_tie_extract_linear_sim.
+Print Assumptions C16_tie_extract_selected_sim.
+Print Assumptions C16_tie_extract_confined_src.
+
+(* non-vacuity: the TRANSLATED create_file on the sandbox of c16-symlink: a member routed through out/link is
+   skipped (directory outside), a member named like the link out/flink is skipped (D23), a plain member is
+   created beneath out/ *)
+Example C16_tie_example :
+  snd (Src3x.create_file out_ (s2b "link/x") fs_sandbox) = Ok None /\
+  snd (Src3x.create_file out_ (s2b "flink") fs_sandbox) = Ok None /\
+  snd (Src3x.create_file out_ (s2b "deep/new.txt") fs_sandbox) = Ok (Some (out_ ++ [s2b "deep"; s2b "new.txt"], out_ ++ [s2b "deep"; s2b "new.txt"])).
+Proof. vm_compute. repeat split. Qed.
